@@ -99,3 +99,27 @@ chk("C10", "exploration",
     "sign (zoned link-local IPv6) when the host has one. Oracle: the notice about the request carries the text as data and no formatter artefact the client did not send.",
     "Only requests net/http lets through to a handler can be explored. The 'every call site in the tree' clause of the quantifier is not decided by this technique (a static scan is another family); only sites reached by requests are exercised.",
     "DESIGN.md 5 C10")
+
+_HW = ("The real hsrv.Server + iobroker.Broker run in-process on a loopback port and are driven over real TLS with hand-written request lines (so hostile targets and header combinations can be expressed); "
+       "notices are read from the operator channel after each response. ")
+chk("C05", "exploration",
+    "exhaustive product of start-up configurations and restart/overlap histories, pin recomputed from the wire certificate, real curl --pinnedpubkey",
+    _HW + "C05: key source {none, cache created, cache reused over 3 starts} x 6 listen-address forms x 6 callback-address sets x files x template; every sha256// value in the start-up notices, "
+    "the help re-printed after a shell died and two /c bodies equals base64(SHA-256(SPKI)) of the leaf seen in two handshakes; one-liners name the bound port unless the user gave one; real curl "
+    "accepts the advertised pin and refuses a one-character variant; an instance keeps serving what it advertised while its cache file is deleted/re-created/rewritten by another instance; four instances started together on a fresh cache path.",
+    "Key values are not enumerable; the oracle is relational per generated key. A start the program refuses is outside this property.",
+    "DESIGN.md 5 C05")
+chk("C07", "exploration",
+    "exhaustive product of address sources, exhaustive template-edit histories to a depth, scripts executed by /bin/sh with real curl",
+    _HW + "C07: c2 parameter (query and POST form; plain, URL-encoded, IPv6 literal) x c2 header x Host (absent/HTTP/1.0, name, name:port, two IDN names via absolute-form target) x SNI on IPv4 and IPv6 listeners against a 5-line reference precedence function; "
+    "both curl lines carry the wire pin, the same address and the same fresh [0-9a-z]+ ID (distinct over 500-2000 scripts); every history of <=4 (thorough 5) template-file operations "
+    "{T1, T2, unparsable, failing at execution, remove} with two requests after each; the script piped to /bin/sh for Host / c2 param / c2 header [::1] / SNI sources x default and custom template with a marker command round trip.",
+    "Addresses that do not route back to this host are checked textually only.",
+    "DESIGN.md 5 C07")
+chk("C09", "exploration",
+    "bounded exhaustive enumeration of raw request targets against real directory trees with canaries outside, all three configurations",
+    _HW + "C09: every target of <=3 segments (thorough: larger segment set, 4 segments over the core set) over dot-segments, encoded/double-encoded dots, encoded slashes, backslashes, NUL, empty segments, "
+    "shell-endpoint names, canary names and a 4 KiB segment x 3 prefixes x 3 suffixes, 301s followed once, against 3 trees (flat, nested, files named c/io/i/x/o/x) + single-file + unset; oracle: no canary content ever, "
+    "no outside listing, 200 bodies are files/listings of the tree (single file: exactly that file; unset: no non-shell 2xx, file handler never runs), shell endpoints keep acting as such (by their notices), one 'File requested' notice per file response.",
+    "Symlinks inside the tree are outside the quantifier. net/http's own 400/301 answers are only checked for leaking content.",
+    "DESIGN.md 5 C09")
